@@ -5,6 +5,7 @@ import Driver.Vars
 import Driver.Remote
 import Driver.Quote
 import Driver.Load
+import Driver.Finger
 /-! Line protocol: `<op> <tok>*` in, one line out (`bad-op` for anything not understood). -/
 open Driver
 
@@ -20,6 +21,7 @@ def dispatch (line : String) : String :=
       else if op.startsWith "remote." then Driver.Remote.handle op args
       else if op.startsWith "quote." then Driver.Quote.handle op args
       else if op.startsWith "load." then Driver.Load.handle op args
+      else if op.startsWith "finger." then Driver.Finger.handle op args
       else none
     r.getD "bad-op"
 
